@@ -14,9 +14,13 @@ import (
 	"encoding/json"
 	"errors"
 	"fmt"
+	"go/ast"
+	"go/parser"
+	"go/token"
 	"io"
 	"os"
 	"path/filepath"
+	"runtime"
 	"sort"
 	"strconv"
 	"strings"
@@ -173,7 +177,9 @@ type verifHarness struct {
 	lastInit  string
 	everBuilt bool // a filesystem was constructed since this manager process started
 	revived   bool // an Init ran after Close() on the same Server
-	histShape []string
+	// report (instead of only counting) records whose config is not their owner's config
+	staleCfgStrict bool
+	histShape      []string
 }
 
 func (h *verifHarness) mpName(path string) string {
@@ -630,6 +636,22 @@ func (h *verifHarness) oracleMount(p, lab, res string, before verifState) {
 		if _, was := before.fsMap[p]; !was && len(h.mountCalls) != 1 {
 			h.out.Fail("mount-ok-without-fs-mount", fmt.Sprintf("Mount(%s) returned ok with %d fs.Mount calls", h.mpName(p), len(h.mountCalls)))
 		}
+		// observation (not part of the predicate unless VERIF_C17_STALECFG=1): the record written for a
+		// NEW mount carries fm.config, which a failed re-Init may have replaced while the filesystem
+		// built from the previous config keeps serving.  (restoreFuseInfo never reads the field.)
+		if len(h.mountCalls) == 1 {
+			recs, _, open := h.readStore()
+			for _, f := range h.fakes {
+				if open && f.id == h.mountCalls[0].fs && recs[p].cfg != f.gen {
+					h.out.Count("obs-record-config-differs-from-owner-config")
+					if h.staleCfgStrict {
+						h.out.Fail("record-config-not-owner-config", fmt.Sprintf(
+							"Mount(%s) was served by fs%d (built from config %s) but the record written carries config %s",
+							h.mpName(p), f.id, f.gen, recs[p].cfg))
+					}
+				}
+			}
+		}
 	} else {
 		if _, was := before.fsMap[p]; !was && served {
 			h.out.Fail("mount-failed-but-served", fmt.Sprintf("Mount(%s) returned %s but it is in fsMap", h.mpName(p), res))
@@ -756,19 +778,6 @@ func (h *verifHarness) oracleQuiescent(op string, before verifState) {
 			_, wasServed := before.fsMap[p]
 			if !wasRec || wasServed {
 				h.out.Fail("recorded-not-served", fmt.Sprintf("%s became recorded-but-unserved during %s", h.mpName(p), op))
-			}
-		}
-	}
-	// observation, not part of the predicate: a record whose config is not the config its owner
-	// was built from (a re-Init that failed after replacing fm.config; restore ignores the field)
-	if op == "mount" {
-		for p, r := range now.store {
-			if id, ok := now.fsMap[p]; ok {
-				for _, f := range h.fakes {
-					if f.id == id && f.gen != r.cfg {
-						h.out.Count("obs-record-config-differs-from-owner-config")
-					}
-				}
 			}
 		}
 	}
@@ -948,12 +957,80 @@ func verifAfterCloseScenarios(plain []int) [][]string {
 	}
 }
 
+// verifLockFacts re-derives, from the source the harness was built against, the atomicity premise
+// of the model: every RPC method of Server takes fm.lock as its first statement and releases it in
+// a defer.  One stat "fact-lock-first:<Method>" is counted per method for which this holds.
+func verifLockFacts(out *verifutil.Out) {
+	_, self, _, ok := runtime.Caller(0)
+	if !ok {
+		return
+	}
+	src := filepath.Join(filepath.Dir(self), "service.go")
+	fset := token.NewFileSet()
+	f, err := parser.ParseFile(fset, src, nil, 0)
+	if err != nil {
+		return
+	}
+	isLockCall := func(n ast.Node, names ...string) bool {
+		c, ok := n.(*ast.CallExpr)
+		if !ok {
+			return false
+		}
+		sel, ok := c.Fun.(*ast.SelectorExpr)
+		if !ok {
+			return false
+		}
+		inner, ok := sel.X.(*ast.SelectorExpr)
+		if !ok || inner.Sel.Name != "lock" {
+			return false
+		}
+		for _, n := range names {
+			if sel.Sel.Name == n {
+				return true
+			}
+		}
+		return false
+	}
+	for _, d := range f.Decls {
+		fd, ok := d.(*ast.FuncDecl)
+		if !ok || fd.Recv == nil || fd.Body == nil || len(fd.Body.List) == 0 {
+			continue
+		}
+		switch fd.Name.Name {
+		case "Init", "Mount", "Check", "Unmount", "Close":
+		default:
+			continue
+		}
+		first, ok := fd.Body.List[0].(*ast.ExprStmt)
+		if !ok || !isLockCall(first.X, "Lock", "RLock") {
+			continue
+		}
+		deferred := false
+		for _, st := range fd.Body.List {
+			ds, ok := st.(*ast.DeferStmt)
+			if !ok {
+				continue
+			}
+			ast.Inspect(ds, func(n ast.Node) bool {
+				if n != nil && isLockCall(n, "Unlock", "RUnlock") {
+					deferred = true
+				}
+				return true
+			})
+		}
+		if deferred {
+			out.Count("fact-lock-first:" + fd.Name.Name)
+		}
+	}
+}
+
 func TestVerifC17(t *testing.T) {
 	logrus.SetOutput(io.Discard)
 	logrus.SetLevel(logrus.PanicLevel)
 	out := verifutil.OpenOut()
 	defer out.Close()
 	rnd := verifutil.NewRand(verifutil.Seed())
+	verifLockFacts(out)
 
 	base, err := os.MkdirTemp("", "verif-c17-")
 	if err != nil {
@@ -1024,6 +1101,7 @@ func TestVerifC17(t *testing.T) {
 	}
 
 	afterClose := os.Getenv("VERIF_C17_AFTERCLOSE") == "1"
+	h.staleCfgStrict = os.Getenv("VERIF_C17_STALECFG") == "1"
 	if rp := os.Getenv("VERIF_C17_REPLAY"); rp != "" {
 		b, err := os.ReadFile(rp)
 		if err != nil {
